@@ -74,7 +74,11 @@ def pca_model_case(py, im):
     rc, eigval, eigvec, mean, sigma, z2f, f2z = im[0:7]
     sq = im[9]
     c = py['case']
-    return [0, py['mode'], py['nvar'], c[4], c[5], eigval, eigvec, sq, sigma, z2f, f2z, c[8]]
+    def san(x):   # non-finite harvested values (singular covariance): placeholder 0, the case is excluded by check_pca
+        if x == []: return [0, 0]
+        if isinstance(x, list) and x and isinstance(x[0], list): return [san(y) for y in x]
+        return x
+    return [0, py['mode'], py['nvar'], c[4], c[5], san(eigval), san(eigvec), san(sq), san(sigma), san(z2f), san(f2z), c[8]]
 
 def sample_cov(rows):
     n = len(rows); k = len(rows[0])
